@@ -113,9 +113,11 @@ def frexp(x: fp.Float, ctx: fp.Context) -> tuple[fp.Float, fp.Float]:
         e = ctx.round(fp.Float.zero(), exact=True)
         return m, e
     else:
-        x = x.normalize()
-        m = ctx.round(fp.RealFloat(s=x.s, e=0, c=x.c), exact=True)
-        e = ctx.round(x.e)
+        # `x.c` and `x.e` do not depend on the representation of `x`:
+        # no need to normalize under whatever context `x` was produced
+        xr = x.as_real()
+        m = ctx.round(fp.RealFloat(s=xr.s, e=0, c=xr.c), exact=True)
+        e = ctx.round(xr.e, exact=True)
         return m, e
 
 ############################################################
